@@ -7,6 +7,7 @@ mod gen_lex;
 mod gen_pp;
 mod gen_sv;
 mod lexer;
+mod memo_cfg;
 mod mon_facts;
 mod mon_hist;
 mod mon_iter;
@@ -50,6 +51,14 @@ fn main() {
         "selftest" => selftest(),
         "probe" => probe(&args),
         "memo1" => props::c17::memo1_main(&args),
+        "memo-config" => {
+            let verif = arg(&args, "--verif").unwrap_or("/verif").to_string();
+            let repo = arg(&args, "--repo").unwrap_or("/repo").to_string();
+            let env = Env { corpus: corpus::Corpus::load(&format!("{}/corpus/spec.txt", verif)), structs: Default::default(), repo, verif };
+            for n in memo_cfg::observed(&env) {
+                println!("{}", n);
+            }
+        }
         "k5enum" => props::c13::k5enum(arg(&args, "--verif").unwrap_or("/verif")),
         "memo" => {
             let mut src = String::new();
